@@ -12,6 +12,7 @@ import (
 	"fmt"
 	"io"
 	"math/rand/v2"
+	"os"
 	"path/filepath"
 	"sort"
 	"sync/atomic"
@@ -70,7 +71,7 @@ func NewStore(kind, dir string) (*Store, error) {
 		dsn := ":memory:"
 		path := ""
 		if kind == "sqlfile" {
-			path = filepath.Join(dir, fmt.Sprintf("w%d.db", fileN.Add(1)))
+			path = filepath.Join(dir, fmt.Sprintf("w%d-%d.db", os.Getpid(), fileN.Add(1))) // several worker processes may share one scratch directory
 			dsn = path
 		}
 		db, err := sql.Open("sqlite3", dsn)
